@@ -224,3 +224,41 @@ CASES += [
  # pointer identity as a fast path in front of the structural test is correct
  dict(id='simplify-ptr-eq-fastpath', kind='silent', file=B, old='BDD::Choice(t, _, f) if t.as_ref() == f.as_ref() => Rc::clone(t),', new='BDD::Choice(t, _, f) if Rc::ptr_eq(t, f) || t.as_ref() == f.as_ref() => Rc::clone(t),', checks=['C02', 'C03', 'C13']),
 ]
+
+_HINT_OLD = '''    for i in 0..numcells {
+        if let Some(ch) = puzzle_input.chars().nth(i) {
+            if char::is_digit(ch, 10) {
+                writeln!(writer, "_{}_is_{} &", i, ch)?;
+            }
+        }
+    }
+'''
+CASES += [
+ # correct: one pass over the characters, limited to the cells
+ dict(id='sudoku-hints-enumerate', kind='silent', file=U, old=_HINT_OLD, new='''    for (i, ch) in puzzle_input.chars().enumerate().take(numcells) {
+        if ch.is_ascii_digit() {
+            writeln!(writer, "_{}_is_{} &", i, ch)?;
+        }
+    }
+''', checks=['C17', 'C12']),
+ # wrong: bytes are not characters (a multi-byte placeholder such as a middle dot shifts every later hint)
+ dict(id='sudoku-hints-bytes', kind='fire', file=U, old=_HINT_OLD, new='''    for i in 0..numcells {
+        if let Some(&ch) = puzzle_input.as_bytes().get(i) {
+            if ch.is_ascii_digit() {
+                writeln!(writer, "_{}_is_{} &", i, ch as char)?;
+            }
+        }
+    }
+''', expect={'C17': 'hints'}),
+ # wrong: hints beyond the last cell name variables no constraint mentions
+ dict(id='sudoku-hints-unbounded', kind='fire', file=U, old=_HINT_OLD, new='''    for (i, ch) in puzzle_input.chars().enumerate() {
+        if ch.is_ascii_digit() {
+            writeln!(writer, "_{}_is_{} &", i, ch)?;
+        }
+    }
+''', expect={'C17': 'hints'}),
+ # wrong: is_numeric accepts digits of other scripts, which the formula language cannot read back as a number 1..9
+ dict(id='sudoku-hints-numeric', kind='fire', file=U, old='if char::is_digit(ch, 10) {', new='if ch.is_numeric() {', expect={'C17': 'hints'}),
+ # wrong: hints read from the unfiltered text
+ dict(id='sudoku-hints-zero-skipped', kind='fire', file=U, old='if char::is_digit(ch, 10) {', new="if char::is_digit(ch, 10) && ch != '5' {", expect={'C17': 'hints'}),
+]
